@@ -272,14 +272,15 @@ impl Engine {
                     .filter(|b| start_after.map(|s| b.id > s).unwrap_or(true))
                     .filter(|b| st.as_ref().map(|s| b.status.as_str() == s.1).unwrap_or(true))
                     .map(|b| b.id)
-                    .take(*limit as usize)
                     .collect();
                 let what = format!("Batches start_after={start_after:?} limit={limit} status={:?}", st.as_ref().map(|s| s.1));
                 self.note(what.clone());
                 match r {
                     Ok(r) => {
                         let got: Vec<u64> = r.batches.iter().map(|b| b.id).collect();
-                        self.chk(&["C17"], got == want, || format!("{what}: got {:?}, full-scan reference {:?}", got, want));
+                        // a page is a non-empty prefix (at most `limit` long) of the matching batches after the cursor
+                        let ok = got.len() <= *limit as usize && want.starts_with(&got) && (got.len() == (*limit as usize).min(want.len()) || (!got.is_empty() && got.len() < want.len()));
+                        self.chk(&["C17"], ok, || format!("{what}: got {:?}, full-scan reference {:?}", got, want));
                     }
                     Err(e) => self.chk(&["C17", "C16"], false, || format!("{what}: {e}")),
                 }
@@ -310,13 +311,14 @@ impl Engine {
                     }
                 });
                 let r: Result<IBCQueueResponse, _> = self.ch.query(QueryMsg::IbcQueue { start_after, limit: Some(*limit as u32) });
-                let want: Vec<u64> = self.m.packets.keys().copied().filter(|k| start_after.map(|s| *k > s).unwrap_or(true)).take(*limit as usize).collect();
+                let want: Vec<u64> = self.m.packets.keys().copied().filter(|k| start_after.map(|s| *k > s).unwrap_or(true)).collect();
                 let what = format!("IbcQueue start_after={start_after:?} limit={limit}");
                 self.note(what.clone());
                 match r {
                     Ok(r) => {
                         let got: Vec<u64> = r.ibc_queue.iter().map(|p| p.sequence).collect();
-                        self.chk(&["C17"], got == want, || format!("{what}: got {:?}, reference {:?}", got, want));
+                        let ok = got.len() <= *limit as usize && want.starts_with(&got) && (got.len() == (*limit as usize).min(want.len()) || (!got.is_empty() && got.len() < want.len()));
+                        self.chk(&["C17"], ok, || format!("{what}: got {:?}, reference {:?}", got, want));
                     }
                     Err(e) => self.chk(&["C17", "C16"], false, || format!("{what}: {e}")),
                 }
